@@ -332,6 +332,11 @@ func (cmd *mainCmd) Run(args []string) error {
 				continue
 			}
 
+		} else if _, err := parser.ParseFile(token.NewFileSet(), filename, bs, parser.AllErrors); err != nil {
+			// Without import processing nothing else verifies
+			// that the rewritten file is still valid Go.
+			errors = append(errors, fmt.Errorf("reformat %q: %w", filename, err))
+			continue
 		}
 
 		switch {
